@@ -181,34 +181,38 @@ def performDepositOrWithdraw : Prog :=
   [.check "OpAmount.IsNegative", .check "IsStakingAsset", .check "Action"] ++
   updateStakerAssetState ++ updateStakingAssetTotalAmount
 
-/-- precompiles/assets/tx.go: DepositOrWithdraw, LST methods -/
+/-- precompiles/assets/tx.go: DepositOrWithdraw, LST methods: the booking and the final read run on one
+    cache context that is written last (fix of F-09a) -/
 def assetsDepositWithdrawLST : Prog :=
-  [.check "CheckExocoreGatewayAddr", .check "DepositWithdrawParams"] ++ performDepositOrWithdraw ++
-  [.check "GetStakerSpecifiedAssetInfo"]
+  [.check "CheckExocoreGatewayAddr", .check "DepositWithdrawParams", .openC] ++ performDepositOrWithdraw ++
+  [.check "GetStakerSpecifiedAssetInfo", .closeC]
 
 /-- x/oracle/keeper/native_token.go: UpdateNSTValidatorListForStaker (checks before its writes) -/
 def updateNSTValidatorListForStaker : Prog :=
   [.check "getDecimal", .check "exists||amount.IsPositive", .write "Set(stakerList)", .write "Set/Delete(stakerInfo)"]
 
-/-- precompiles/assets/tx.go: DepositOrWithdraw, NST methods: the deposit/withdraw is booked, *then*
-    the oracle's validator list is updated and may refuse -/
+/-- precompiles/assets/tx.go: DepositOrWithdraw, NST methods: the deposit/withdraw is booked, then the
+    oracle's validator list is updated and may refuse — all on the same cache context, written only
+    after the last step succeeded (fix of F-09a; before it there was no cache context) -/
 def assetsDepositWithdrawNST : Prog :=
-  [.check "CheckExocoreGatewayAddr", .check "DepositWithdrawParams"] ++ performDepositOrWithdraw ++
-  updateNSTValidatorListForStaker ++ [.check "GetStakerSpecifiedAssetInfo"]
+  [.check "CheckExocoreGatewayAddr", .check "DepositWithdrawParams", .openC] ++ performDepositOrWithdraw ++
+  updateNSTValidatorListForStaker ++ [.check "GetStakerSpecifiedAssetInfo", .closeC]
 
 /-- precompiles/assets/tx.go: RegisterOrUpdateClientChain -/
 def registerOrUpdateClientChain : Prog :=
   [.check "CheckExocoreGatewayAddr", .check "ClientChainInfoFromInputs", .write "SetClientChainInfo"]
 
-/-- precompiles/assets/tx.go: RegisterToken: the oracle token/feeder is registered (store + cache),
-    *then* SetStakingAssetInfo validates decimals and duplicates -/
+/-- precompiles/assets/tx.go: RegisterToken (after the fix of F-09b): one cache context; the asset is
+    validated and stored first (SetStakingAssetInfo), then the oracle token/feeder is registered, whose
+    last step updates the oracle's in-memory params cache — a write that a cache context cannot undo
+    and that therefore has to come after every check (`C09_registerToken_mem_write_last`) -/
 def registerToken : Prog :=
-  [.check "CheckExocoreGatewayAddr", .check "TokenFromInputs", .check "IsStakingAsset(already)",
+  [.check "CheckExocoreGatewayAddr", .check "TokenFromInputs", .check "IsStakingAsset(already)", .openC,
+   -- x/assets/keeper/client_chain_asset.go: SetStakingAssetInfo
+   .check "Decimals>MaxDecimal", .check "StakingTotalAmount.IsNegative", .check "Has(assetID)", .write "Set(asset)",
    -- x/oracle/keeper/params.go: RegisterNewTokenAndSetTokenFeeder
    .check "GetTokenIDFromAssetID", .check "ParseInt(decimal)", .check "ParseUint(interval)",
-   .write "oracle.SetParams", .write "cs.AddCache(ItemP)",
-   -- x/assets/keeper/client_chain_asset.go: SetStakingAssetInfo
-   .check "Decimals>MaxDecimal", .check "StakingTotalAmount.IsNegative", .check "Has(assetID)", .write "Set(asset)"]
+   .write "oracle.SetParams", .write "cs.AddCache(ItemP)", .closeC]
 
 /-- precompiles/assets/tx.go: UpdateToken -/
 def updateToken : Prog :=
@@ -312,13 +316,14 @@ def updateVotingPowerNoAssets : Prog :=
   [.call "DeleteAllOperatorsUSDValueForAVS", .check "DeleteAVSUSDValue", .write "Delete(avsUSDValue)"]
 
 /-- x/oracle/keeper/native_token.go: UpdateNSTByBalanceChange, the loop unrolled for two stakers:
-    staker 1 is updated and stored before staker 2 is examined -/
+    staker 1 is updated and stored before staker 2 is examined — inside one cache context that is
+    written only after the last staker (fix of F-09d) -/
 def updateNSTByBalanceChange2 : Prog :=
-  [.check "len(rawData)<32", .check "len(StakerAddrs)==0", .check "parseBalanceChange",
+  [.check "len(rawData)<32", .check "len(StakerAddrs)==0", .check "parseBalanceChange", .openC,
    .check "stakerInfo(1)!=nil", .check "balance range(1)", .check "getDecimal(1)", .call "UpdateNSTBalance(1)",
    .write "Set(stakerInfo 1)",
    .check "stakerInfo(2)!=nil", .check "balance range(2)", .check "getDecimal(2)", .call "UpdateNSTBalance(2)",
-   .write "Set(stakerInfo 2)"]
+   .write "Set(stakerInfo 2)", .closeC]
 
 /-- x/avs/keeper/keeper.go: CreateAVSTask via precompiles/avs/tx.go -/
 def precompileCreateTask : Prog :=
